@@ -3,7 +3,7 @@ property evaluation of C10 on the implementation (live collection vs. freshly bu
 no string lost, copies independent)."""
 from __future__ import annotations
 from common import *
-from impl_graph import strs, comps
+from impl_graph import strs, comps, join
 from impl_classify import sorted_ps, legs_text, algebra_text
 from paulie.common.pauli_string_bitarray import PauliString
 from paulie.common.pauli_string_collection import PauliStringCollection
@@ -29,6 +29,24 @@ def query(c, t):
     if k == "q.getlen": return str(c.get_len())
     if k == "q.pair": return str(c.get_anticommutation_pair())
     if k == "q.sub": return comps(c.get_subgraphs())
+    if k == "q.graph":
+        v, e, lab = c.get_graph()
+        assert set(lab.keys()) == set(e)
+        return f"V={join([x or '-' for x in v])}#E={join([f'{a or chr(45)}-{b or chr(45)}:{lab[(a, b)] or chr(45)}' for a, b in e])}"
+    if k == "q.compsA": return comps(c.get_graph_components("anticommutator"))
+    if k == "q.commutants": return plist(c.get_commutants())
+    if k == "q.cgraph":
+        v, e = c.get_commutator_graph()
+        return f"V={join([x or '-' for x in v])}#E={join([f'{a or chr(45)}-{b or chr(45)}' for a, b in e])}"
+    if k == "q.pairs":
+        ap = guard(lambda: str(c.get_anticommutation_pair()))
+        def fr():
+            f = c.get_anticommutation_fraction()
+            n = len(c) * (len(c) - 1) // 2
+            kk = round(f * n)
+            assert abs(f - kk / n) < 1e-12
+            return f"{kk}/{n}"
+        return f"anti={ap}#pair={c.get_pair()}#frac={guard(fr)}"
     if k == "q.find": return str(c.find(P(t[1])))
     if k == "q.index": return str(c.index(P(t[1])))
     if k == "q.alg": return algebra_text(str(c.get_algebra()))
@@ -85,7 +103,7 @@ def handle(line: str) -> str:
                 out.append("ok=" + state(c))
             except Exception as e:
                 out.append(exc_name(e) + "=" + state(c))
-    return "|".join(out)
+    return "\t".join(out)
 
 # ----------------------------------------------------------------- property evaluation
 
